@@ -88,7 +88,7 @@ def gen_conv_c04(rng) -> Conv:
     if r < 0.6:
         return Conv("i", fixed=rng.choice([1, 2, 3, 5]), signed=rng.random() < 0.3)
     if r < 0.68:
-        return Conv("i", signed=True, mn=rng.choice([None, -10]), mx=rng.choice([None, 1000]))
+        return Conv("i", signed=True, mn=rng.choice([None, 0, 3]), mx=rng.choice([None, 1000]))
     if r < 0.78:
         return Conv("f", signed=rng.random() < 0.4)
     if r < 0.88:
